@@ -1,1 +1,132 @@
 // Kani contract harnesses for /repo/arrow-string/src/concat_elements.rs (child module: sees private items via super::)
+use super::*;
+#[path = "/verif/kani/support/spec.rs"]
+mod spec;
+use spec::*;
+use arrow_array::types::Utf8Type;
+use arrow_buffer::{BooleanBuffer, OffsetBuffer};
+
+/// a symbolic Unicode scalar value whose UTF-8 encoding has exactly `w` bytes (full range of that class)
+fn sym_char_w(w: u8) -> char {
+    let u: u32 = kani::any();
+    match w {
+        1 => kani::assume(u < 0x80),
+        2 => kani::assume(u >= 0x80 && u < 0x800),
+        3 => kani::assume(u >= 0x800 && u < 0x10000 && !(u >= 0xD800 && u < 0xE000)),
+        _ => kani::assume(u >= 0x10000 && u < 0x110000),
+    }
+    char::from_u32(u).unwrap()
+}
+/// hand-written UTF-8 encoder (spec side)
+fn put(buf: &mut [u8], pos: usize, c: char) -> usize {
+    let u = c as u32;
+    if u < 0x80 { buf[pos] = u as u8; 1 }
+    else if u < 0x800 { buf[pos] = 0xC0 | (u >> 6) as u8; buf[pos + 1] = 0x80 | (u & 0x3F) as u8; 2 }
+    else if u < 0x10000 { buf[pos] = 0xE0 | (u >> 12) as u8; buf[pos + 1] = 0x80 | ((u >> 6) & 0x3F) as u8; buf[pos + 2] = 0x80 | (u & 0x3F) as u8; 3 }
+    else { buf[pos] = 0xF0 | (u >> 18) as u8; buf[pos + 1] = 0x80 | ((u >> 12) & 0x3F) as u8; buf[pos + 2] = 0x80 | ((u >> 6) & 0x3F) as u8; buf[pos + 3] = 0x80 | (u & 0x3F) as u8; 4 }
+}
+
+/// Build a 2-row StringArray. Row r consists of the chars whose widths are W[r][0], W[r][1] (0 = absent).
+/// `lead` garbage-free padding bytes (ASCII) precede the first value so that offsets[0] == lead (a sliced
+/// array). Returns (array, value bytes, concrete offsets). Widths are concrete (grid rule), scalars symbolic.
+fn mk_rows<const LEAD: usize>(w: [[u8; 2]; 2], valid: Option<u8>) -> (GenericByteArray<Utf8Type>, [u8; 24], [usize; 3]) {
+    let mut buf = [b'.'; 24];
+    let mut pos = LEAD;
+    let mut offs = [LEAD; 3];
+    let mut r = 0;
+    while r < 2 {
+        let mut c = 0;
+        while c < 2 {
+            // advance by the CONCRETE width (put() returns the same number, but only under the assume)
+            if w[r][c] != 0 { let n = put(&mut buf, pos, sym_char_w(w[r][c])); assert!(n == w[r][c] as usize); pos += w[r][c] as usize; }
+            c += 1;
+        }
+        offs[r + 1] = pos;
+        r += 1;
+    }
+    let ob = OffsetBuffer::<i32>::new(ScalarBuffer::from(vec![offs[0] as i32, offs[1] as i32, offs[2] as i32]));
+    let nulls = valid.map(|b| NullBuffer::new(BooleanBuffer::new(Buffer::from_slice_ref(&[b]), 0, 2)));
+    // SAFETY: offsets are monotone and in bounds, every value is the UTF-8 encoding of scalar values
+    let a = unsafe { GenericByteArray::<Utf8Type>::new_unchecked(ob, Buffer::from_slice_ref(&buf[..pos]), nulls) };
+    (a, buf, offs)
+}
+
+// Contract (C20, "element-wise concatenation ... outputs are valid UTF-8"): for two 2-row StringArrays with
+// the given CONCRETE per-char byte widths (grid rule: every allocation size concrete), symbolic scalar
+// values of those widths, symbolic validity bitmaps (or none), first value starting at byte LEAD (sliced
+// input):
+//   Ok(out); out has 2 rows; offsets == [0, |l0|+|r0|, |l0|+|r0|+|l1|+|r1|] (prefix sums);
+//   row k valid <=> left row k valid && right row k valid;
+//   bytes of row k == bytes(left row k) ++ bytes(right row k): the encoding of the concatenated scalar
+//   sequences, hence valid UTF-8 by construction.
+// Stubs: alloc::fmt::format.
+macro_rules! concat_unit {
+    ($name:ident, $lw:expr, $rw:expr, $llead:expr, $rlead:expr, $bitmaps:tt) => {
+        #[kani::proof]
+        #[kani::unwind(26)]
+        #[kani::stub(alloc::fmt::format, stub_format)]
+        fn $name() {
+            let (lbits, rbits): (u8, u8) = (kani::any(), kani::any());
+            let (l, lb, lo) = mk_rows::<{ $llead }>($lw, sel!($bitmaps, Some(lbits), None));
+            let (r, rb, ro) = mk_rows::<{ $rlead }>($rw, sel!($bitmaps, Some(rbits), Some(rbits)));
+            let out = concat_elements_bytes::<Utf8Type>(&l, &r);
+            assert!(out.is_ok());
+            if let Ok(o) = &out {
+                assert!(o.len() == 2);
+                let offs = o.value_offsets();
+                assert!(offs.len() == 3 && offs[0] == 0);
+                let mut acc = 0usize;
+                let mut k = 0;
+                while k < 2 {
+                    let (ll, rl) = (lo[k + 1] - lo[k], ro[k + 1] - ro[k]);
+                    assert!(offs[k + 1] as usize == acc + ll + rl);
+                    let v: &[u8] = o.value(k).as_bytes();
+                    assert!(v.len() == ll + rl);
+                    let mut j = 0;
+                    while j < ll + rl {
+                        let want = if j < ll { lb[lo[k] + j] } else { rb[ro[k] + j - ll] };
+                        assert!(v[j] == want);
+                        j += 1;
+                    }
+                    let lv = sel!($bitmaps, (lbits >> k) & 1 == 1, true);
+                    let rv = (rbits >> k) & 1 == 1;
+                    assert!(o.is_valid(k) == (lv && rv));
+                    acc += ll + rl;
+                    k += 1;
+                }
+                kani::cover!(o.is_valid(0) && !o.is_valid(1));
+                kani::cover!(o.is_valid(1));
+            }
+            std::mem::forget(out);
+            std::mem::forget(l);
+            std::mem::forget(r);
+        }
+    };
+}
+macro_rules! sel { (true, $a:expr, $b:expr) => { $a }; (false, $a:expr, $b:expr) => { $b }; }
+
+// rows: left ["A é", ""], right ["€", "b c"]  (widths)
+// NOT CONFIRMED under load (never seen to finish on the shared machine, load 40-75): keep tier=thorough until re-measured
+// @unit name=concat_utf8_shape_a props=C20 kind=bounded bound=rows=2_widths_l[(1,2),()]_r[(3),(1,1)]_scalars_and_validity_symbolic fns=concat_elements_bytes,concat_elements_utf8 timeout=900 mem=6 tier=thorough
+concat_unit!(concat_utf8_shape_a, [[1, 2], [0, 0]], [[3, 0], [1, 1]], 0, 0, true);
+// sliced inputs (offsets[0] = 2 / 1), 4-byte scalar, left without validity bitmap
+// NOT CONFIRMED under load (never seen to finish on the shared machine, load 40-75): keep tier=thorough until re-measured
+// @unit name=concat_utf8_shape_b_sliced props=C20 kind=bounded bound=rows=2_widths_l[(4),(1)]_r[(),(2,1)]_first_offsets_2_and_1_scalars_and_validity_symbolic fns=concat_elements_bytes,concat_elements_utf8 timeout=900 mem=6 tier=thorough
+concat_unit!(concat_utf8_shape_b_sliced, [[4, 0], [1, 0]], [[0, 0], [2, 1]], 2, 1, false);
+
+// Contract: arrays of different lengths are rejected with Err (no panic).  Stubs: alloc::fmt::format.
+// @unit name=concat_utf8_length_mismatch props=C20 kind=bounded bound=lengths_2_vs_1 fns=concat_elements_bytes timeout=600 mem=4 tier=thorough
+#[kani::proof]
+#[kani::unwind(26)]
+#[kani::stub(alloc::fmt::format, stub_format)]
+fn concat_utf8_length_mismatch() {
+    let (l, _lb, _lo) = mk_rows::<0>([[1, 0], [1, 0]], None);
+    let ob = OffsetBuffer::<i32>::new(ScalarBuffer::from(vec![0i32, 1]));
+    let r = unsafe { GenericByteArray::<Utf8Type>::new_unchecked(ob, Buffer::from_slice_ref(&[b'x']), None) };
+    let out = concat_elements_bytes::<Utf8Type>(&l, &r);
+    assert!(out.is_err());
+    kani::cover!(out.is_err());
+    std::mem::forget(out);
+    std::mem::forget(l);
+    std::mem::forget(r);
+}
